@@ -22,3 +22,33 @@ Theorem c01_partial_remove_walk_never_reads_a_missing_value :
     merge_row fuel sc sv (filter (fun x => negb (x =? c)) sc) None <> None.
 Proof. exact merge_row_remove_succeeds. Qed.
 Print Assumptions c01_partial_remove_walk_never_reads_a_missing_value.
+
+Require Import EV.SlotMap EV.Loop EV.Store EV.Graph EV.Effects EV.Reach.
+
+(* on a consistent world none of the unchecked storage operations behind Insert / Remove / Spawn /
+   Despawn (archetype.rs: get_unchecked, unwrap_unchecked, assume_debug_checked, column pointer
+   arithmetic; the model's FUB sites 220-532) can fail: the effect either succeeds or panics with
+   the documented "too many entities" capacity failure, and the world stays consistent *)
+Theorem c01_builtin_effects_hit_no_unchecked_failure :
+  forall (kind : ekind) (ev : evv) (loc : eloc) (w : world) (e : key),
+    WInv w -> (targeted_kind kind = true -> sm_get e (w_ents w) = Some loc) ->
+    match builtin_effect kind ev loc w with
+    | ROk _ w' => WInv w'
+    | RFail f w' => f = FPanic 5 /\ WInv w'
+    end.
+Proof. exact builtin_effect_ok. Qed.
+Print Assumptions c01_builtin_effects_hit_no_unchecked_failure.
+
+(* and that consistency is available at every delivery of every flush started from a reachable
+   world, for every handler behaviour *)
+Theorem c01_consistency_holds_after_every_delivery :
+  forall (beh : hinfo -> logent -> N -> script) (it : qitem) (w : world),
+    WInv w -> GevKinds w -> WInv (snd (fst (deliver_one beh it w))).
+Proof. exact deliver_one_WInv. Qed.
+Print Assumptions c01_consistency_holds_after_every_delivery.
+
+Theorem c01_reachable_worlds_are_consistent :
+  forall (beh : hinfo -> logent -> N -> script) (fuel p : N) (ops : list top),
+    RInv (fold_left (run_top beh) ops (world0 fuel p)).
+Proof. exact reachable_RInv. Qed.
+Print Assumptions c01_reachable_worlds_are_consistent.
